@@ -2441,10 +2441,15 @@ static int _GD_ParseDirective(DIRFILE *D, struct parser_state *restrict p,
     case 'V':
       if (strcmp(ptr, "VERSION") == 0 && GD_PVERS_GE(*p, 5)) {
         matched = 1;
+        if (atoi(in_cols[1]) < 0) { /* there are no negative versions */
+          _GD_SetError(D, GD_E_FORMAT, GD_E_FORMAT_BAD_LINE, p->file, p->line,
+              NULL);
+          break;
+        }
         p->standards = atoi(in_cols[1]);
         if (!p->pedantic && ~(p->flags) & GD_PERMISSIVE)
           p->flags |= (p->pedantic = GD_PEDANTIC);
-        if (p->pedantic)
+        if (p->pedantic && p->standards < 64)
           D->fragment[me].vers |= 1ULL << p->standards;
       }
       break;
